@@ -125,6 +125,7 @@ class BehavioralRTLIRTypeCheckVisitorL1( bir.BehavioralRTLIRNodeVisitor ):
   def enter( s, blk, rtlir ):
     """ entry point for RTLIR type checking """
     s.blk     = blk
+    s._upblk_ir_name = getattr( rtlir, 'name', blk.__name__ )
 
     # s.globals contains a dict of the global namespace of the module where
     # blk was defined
@@ -250,6 +251,18 @@ class BehavioralRTLIRTypeCheckVisitorL1( bir.BehavioralRTLIRNodeVisitor ):
       node._value = int(node.obj)
     node.Type = t
     node._is_explicit = not isinstance(node.obj, int)
+
+    if node.name in s.freevars:
+      # Blocks of one component can come from different Python modules (a
+      # base class in another file) whose global name spaces have different
+      # objects of the same name: they must not share one constant.
+      other = s.freevars[ node.name ][0]
+      try:
+        same = other is node.obj or ( type(other) is type(node.obj) and bool( other == node.obj ) )
+      except Exception:
+        same = False
+      if not same:
+        node.name = f"{node.name}_at_{s._upblk_ir_name}"
 
     if node.name not in s.freevars:
       s.freevars[ node.name ] = ( node.obj, t )
